@@ -563,6 +563,7 @@ func run(c *Ctx) {
 		exhaustiveSmall(c, im, cf)
 	}
 	concurrentDelivery(c, im, cf)
+	concurrentSequence(c, im, cf)
 	meshFloodBound(c, im)
 	Must(cf.Write())
 	Must(im.Write(c.Out))
@@ -731,6 +732,138 @@ func concurrentDelivery(c *Ctx, im *Impl, cf *CaseFile) {
 		cf.Add(fmt.Sprintf("CConc {| cc_threads := %d; cc_seen := %v; cc_processed := %d |}", nt, seen, processed), label)
 		im.Count(label, true)
 		im.Hist(fmt.Sprintf("concurrent:%s", []string{"ordinary", "duplicate-notice", "seen-id"}[kind]))
+	}
+}
+
+// concurrentSequence: DIFFERENT updates of one origin (consecutive sequence numbers, sometimes a restart
+// with a higher epoch, each with its own ID and its own picture of the origin's connections) reach the node
+// over different links at the same moment.  The origin is new to the node in most rounds (first contact
+// takes a different path through the handler) and known in the others.  Oracle (property text: knowledge
+// never regresses, the newest wins): afterwards the node records the newest pair and the newest picture,
+// and no update was relayed twice to one connection.  Model: Model/FloodCases.v seq_check - the recorded
+// pair and row must be what handle_update yields for SOME order of the batch.
+func concurrentSequence(c *Ctx, im *Impl, cf *CaseFile) {
+	rounds := 1500
+	if c.Thorough() {
+		rounds = 15000
+	}
+	r := NewRng(c.Seed ^ 0x5e9c06)
+	conns := []string{"k0", "k1", "k2", "k3", "tail"}
+	w := newWorld(conns)
+	defer w.stop()
+	bad := 0
+	for round := 0; round < rounds; round++ {
+		origin := fmt.Sprintf("q%d", round)
+		nm := newNames()
+		for _, cn := range conns {
+			nm.id(cn)
+		}
+		nm.id(origin)
+		var pre []netceptor.VerifRoutingUpdate
+		if r.Chance(30) { // the origin is already known
+			u := netceptor.VerifRoutingUpdate{NodeID: origin, UpdateID: origin + "-pre", UpdateEpoch: 500, UpdateSequence: 1,
+				Connections: map[string]float64{"k0": 1}, ForwardingNode: "k3"}
+			pre = append(pre, u)
+			w.n.VerifHandleRoutingUpdate(u, "k3")
+			w.observe()
+		}
+		nt := 2 + r.Intn(3)
+		var batch []netceptor.VerifRoutingUpdate
+		var recvs []string
+		e, sq := uint64(500), uint64(1)
+		for t := 0; t < nt; t++ {
+			sq++
+			if r.Chance(15) {
+				e, sq = e+1, 1
+			}
+			row := map[string]float64{"x": float64(1 + t)}
+			if r.Chance(50) {
+				row[conns[r.Intn(4)]] = float64(1 + r.Intn(3))
+			}
+			batch = append(batch, netceptor.VerifRoutingUpdate{NodeID: origin, UpdateID: fmt.Sprintf("%s-%d", origin, t), UpdateEpoch: e,
+				UpdateSequence: sq, Connections: row, ForwardingNode: conns[t]})
+			recvs = append(recvs, conns[t])
+		}
+		// deliver in a shuffled thread order (the newest is not always the last goroutine started)
+		order := r.Perm(nt)
+		var done sync.WaitGroup
+		var ready, release int32
+		for _, i := range order {
+			done.Add(1)
+			go func(u netceptor.VerifRoutingUpdate, from string) {
+				defer done.Done()
+				atomic.AddInt32(&ready, 1)
+				for atomic.LoadInt32(&release) == 0 {
+					runtime.Gosched()
+				}
+				w.n.VerifHandleRoutingUpdate(u, from)
+			}(batch[i], recvs[i])
+		}
+		for atomic.LoadInt32(&ready) < int32(nt) {
+			runtime.Gosched()
+		}
+		atomic.StoreInt32(&release, 1)
+		done.Wait()
+		o := w.observe()
+		newest := batch[nt-1]
+		gotInfo, haveInfo := o.Info[origin]
+		gotRow := o.Known[origin]
+		rec := map[string]interface{}{"round": round, "batch": batch, "info": gotInfo, "row": gotRow}
+		if bad < 6 {
+			if !haveInfo || gotInfo != [2]uint64{newest.UpdateEpoch, newest.UpdateSequence} {
+				bad++
+				im.Violate(fmt.Sprintf("updates %v..(%d,%d) of %s arrived at the same moment over %d links; the node records %v: routing knowledge regressed",
+					[2]uint64{batch[0].UpdateEpoch, batch[0].UpdateSequence}, newest.UpdateEpoch, newest.UpdateSequence, origin, nt, gotInfo), "concurrent-knowledge-regressed", rec)
+			} else if fmt.Sprint(gotRow) != fmt.Sprint(newest.Connections) {
+				bad++
+				im.Violate(fmt.Sprintf("the node records the newest pair of %s but the connection picture %v of an older update (newest lists %v)", origin, gotRow, newest.Connections),
+					"concurrent-picture-regressed", rec)
+			}
+			per := map[string]int{}
+			for _, rl := range o.Relays {
+				per[rl[0]+"/"+rl[1]]++
+			}
+			for k, cnt := range per {
+				if cnt > 1 {
+					bad++
+					im.Violate(fmt.Sprintf("an update of a concurrent batch was relayed %d times to one connection (%s)", cnt, k), "concurrent-relayed-twice", rec)
+					break
+				}
+			}
+		}
+		// Coq case: fresh model node with the same connections (rounds are independent: a new origin each)
+		cs := make([]string, len(conns))
+		row0 := make([]string, len(conns))
+		for i, cn := range conns {
+			cs[i] = CoqN(nm.id(cn))
+			row0[i] = fmt.Sprintf("(%d, 1)", nm.id(cn))
+		}
+		init := fmt.Sprintf("{| ns_self := 1; ns_epoch := %d; ns_conns := %s; ns_info := []; ns_known := [(1, %s)]; ns_seen := []; ns_down := false |}", selfEpoch, CoqList(cs), CoqList(row0))
+		var bs []string
+		for _, u := range pre {
+			bs = append(bs, fmt.Sprintf("(%s, %d)", coqUpd(nm, u), nm.id("k3")))
+		}
+		npre := len(bs)
+		for i, u := range batch {
+			bs = append(bs, fmt.Sprintf("(%s, %d)", coqUpd(nm, u), nm.id(recvs[i])))
+		}
+		// the pre-delivered update (if any) is part of the model's initial state: run it first, then the batch in some order
+		infoS, rowS := "None", "None"
+		if haveInfo {
+			infoS = fmt.Sprintf("(Some (%d, %d))", gotInfo[0], gotInfo[1])
+		}
+		if gotRow != nil {
+			rowS = "(Some " + coqCosts(nm, gotRow) + ")"
+		}
+		label := fmt.Sprintf("concurrent sequence round %d threads=%d known-before=%v", round, nt, npre > 0)
+		initS := init
+		if npre > 0 {
+			initS = fmt.Sprintf("(fst (handle_update %s (fst %s) (snd %s)))", init, bs[0], bs[0])
+		}
+		cf.Add(fmt.Sprintf("CSeq {| q_init := %s; q_origin := %d; q_batch := %s; q_info := %s; q_row := %s |}",
+			initS, nm.id(origin), CoqList(bs[npre:]), infoS, rowS), label)
+		im.Count(label, true)
+		im.Hist(fmt.Sprintf("concurrent-sequence:threads-%d", nt))
 	}
 }
 
